@@ -73,6 +73,18 @@ def _chain_shape_lazy(run: Run, cm, fi: FuncInfo, cfg: CFG, pvalue: str, ppath: 
     def member_results(e: ast.AST) -> bool:
         if isinstance(e, ast.Name):
             ds = [a.value for a in walk_no_nested(fi.node) if isinstance(a, ast.Assign) and len(a.targets) == 1 and is_name(a.targets[0], e.id)]
+            if len(ds) == 1 and isinstance(ds[0], ast.List) and not ds[0].elts:
+                # a list filled by one loop `for c in self.constraints: acc.append(c.evaluate(value, path))` (every member, no
+                # filter, on the chain's own value) - the eager reading of a generator of member results
+                fills = [n for n in walk_no_nested(fi.node) if isinstance(n, ast.Call) and isinstance(n.func, ast.Attribute) and n.func.attr in ("append", "extend", "insert") and is_name(n.func.value, e.id)]
+                if len(fills) == 1 and fills[0].func.attr == "append":
+                    st = getattr(fills[0], "_parent", None)
+                    lp = getattr(st, "_parent", None)
+                    c = fills[0].args[0] if fills[0].args else None
+                    return (isinstance(st, ast.Expr) and isinstance(lp, ast.For) and lp.body == [st] and not lp.orelse and ast.unparse(lp.iter) == "self.constraints" and isinstance(lp.target, ast.Name)
+                            and isinstance(c, ast.Call) and isinstance(c.func, ast.Attribute) and c.func.attr == "evaluate" and is_name(c.func.value, lp.target.id)
+                            and [ast.unparse(a) for a in c.args] + [ast.unparse(k.value) for k in c.keywords] == [pvalue, ppath])
+                return False
             return len(ds) == 1 and member_results(ds[0])
         if isinstance(e, ast.Call) and isinstance(e.func, ast.Attribute) and is_name(e.func.value, "self") and [ast.unparse(a) for a in e.args] + [ast.unparse(k.value) for k in e.keywords] == [pvalue, ppath]:
             # a generator method of the chain: `for c in self.constraints: yield c.evaluate(<its value param>, <its path param>)`
@@ -158,7 +170,7 @@ def _chain_shape(run: Run, cm, fi: FuncInfo) -> None:
     cfg = CFG(fi.node)
     pvalue, ppath = [a.arg for a in fi.node.args.args][1:3]  # type: ignore[attr-defined]
     loops = [n for n in cfg.nodes if n.kind == "iter" and ast.unparse(n.ast) == "self.constraints"]  # type: ignore[arg-type]
-    if not loops and _chain_shape_lazy(run, cm, fi, cfg, pvalue, ppath):
+    if _chain_shape_lazy(run, cm, fi, cfg, pvalue, ppath):
         return
     if len(loops) != 1:
         run.instance("R08.1", cm.loc(fi.node), "ConstraintChain.evaluate: exactly one loop over self.constraints", ok=False)
